@@ -205,7 +205,7 @@ theorem svm_block_eq {conv : Conv} {gR gI gQ : Bytes â†’ Res Nat} {gC : Bytes â†
 theorem svm_lineFormat {conv : Conv} {gR gI gQ : Bytes â†’ Res Nat} {gC : Bytes â†’ Res (Nat Ã— Nat)}
     (hL : conv.LocalWith gR gI gQ gC) (iw mode : Nat) :
     LineFormat (fun _ => true) (svmRows Fixes.repaired conv iw mode) (svmRecS gR gI gQ iw mode) :=
-  LineFormat.ofBlockEq (svm_block_eq hL iw mode)
+  LineFormat.ofBlockEq (fun t _ hb => svm_block_eq hL iw mode t (by have := codeLines_length t; omega))
     (fun L => by simp [svmRecS, svmLineS_strip])
     (by simp [svmRecS, svmLineS_nil, Except.map])
     (Or.inl (fun L r h => by
